@@ -21,7 +21,7 @@ META = {
                    "down with an error; a task exception of any kind becomes a TaskFailure; failure messages from children are forwarded; "
                    "terminate() stops workers, shm server and data server even if an earlier step fails and is idempotent; the shm server purges "
                    "all segments at exit (also those with a registered reader); controller shutdown in finally. "
-                   "Not decided: bounded-time termination, process table and /dev/shm after a crash at an arbitrary instant.",
+                   "Later rules: the bridge forgets a host only on that executor's own exit / failure, the shm server's shutdown command ends its loop whatever the store holds, atexit continues after a vanished segment, a generator task with a count mismatch fails. Not decided: bounded-time termination, process table and /dev/shm after a crash at an arbitrary instant.",
     "assumptions": ["process handles, sockets and shm client are opaque; one exception source per explored path"],
 }
 
